@@ -336,7 +336,7 @@ def run(ctx: core.Ctx) -> core.Report:
             if it[0] == "out" and it[2].startswith("raised "):
                 rep2.violation("C03:sd-endpoint-raises:" + it[2].split(" ")[1], f"receive path raised {it[2].split(' ')[1]} at {it[1]}", case)
 
-    stateful.run_scenarios(ctx, rep, make, no_raise, ctx.n(40, 600), "c03-lockstep")
+    stateful.run_scenarios(ctx, rep, make, no_raise, ctx.n(80, 1000), "c03-lockstep")
     # ---- (3) live service endpoint
     for i in range(ctx.n(300, 5000)):
         rep.evaluations += 1
